@@ -91,6 +91,8 @@ MUTANTS = [
     ("cl_rwg_shapeset", "bempp_cl/core/sources/include/rwg0_shapeset.h", "result[2 * 1 + 0] = localPoint->x - 1;", "result[2 * 1 + 0] = localPoint->x;", 0, ["C20"]),
     ("cl_const_digit", "bempp_cl/core/sources/include/bempp_base_types.h", "#define M_INV_4PI 0.07957747154594767", "#define M_INV_4PI 0.07957747154594676", 0, ["C20"]),
     # ---- spaces / sparse / grid functions
+    ("sparse_transform_wrong_side", "bempp_cl/core/sparse_assembler.py", "mat = dual_to_range.dof_transformation.T @ mat", "mat = mat @ dual_to_range.dof_transformation.T", 0, ["C13"]),
+    ("sparse_transform_not_transposed", "bempp_cl/core/sparse_assembler.py", "mat = dual_to_range.dof_transformation.T @ mat", "mat = dual_to_range.dof_transformation @ mat", 0, ["C13"]),
     ("sparse_scatter_swap", "bempp_cl/core/sparse_assembler.py", "global_rows = test_local2global[rows]\n        global_cols = trial_local2global[cols]", "global_rows = test_local2global[cols]\n        global_cols = trial_local2global[rows]", 0, ["C13", "C04"]),
     ("sparse_support_one_sided", "bempp_cl/core/sparse_assembler.py", "support = domain.support * dual_to_range.support", "support = domain.support", 0, ["C13", "C04"]),
     ("l2_kernel_trial_index", NK, "* local_trial_fun_values[dim_index, trial_index, quad_index]\n                        * quad_weights[quad_index]\n                        * integration_element\n                    )\n\n\n@_numba.jit(nopython=True, parallel=False, error_model=\"numpy\", fastmath=True, boundscheck=False)\ndef _vector_grad_product_kernel", "* local_trial_fun_values[dim_index, test_index, quad_index]\n                        * quad_weights[quad_index]\n                        * integration_element\n                    )\n\n\n@_numba.jit(nopython=True, parallel=False, error_model=\"numpy\", fastmath=True, boundscheck=False)\ndef _vector_grad_product_kernel", 0, ["C13"]),
@@ -102,6 +104,8 @@ MUTANTS = [
     ("projection_position_index", "bempp_cl/api/assembly/grid_function.py", "* function_data[:, index * npoints : (1 + index) * npoints]", "* function_data[:, element * npoints : (1 + element) * npoints]", 0, ["C13"]),
     ("map_to_full_grid_rows", "bempp_cl/api/space/space.py", "nshape_fun * _np.repeat(self._support_elements, nshape_fun)\n                    + _np.tile(_np.arange(nshape_fun), self._number_of_support_elements),", "nshape_fun * _np.repeat(_np.arange(self._number_of_support_elements), nshape_fun)\n                    + _np.tile(_np.arange(nshape_fun), self._number_of_support_elements),", 0, ["C02", "C04", "C09"]),
     ("rwg_sign_rule", "bempp_cl/api/space/maxwell_spaces.py", "1 if element_index == min(supported_neighbors) else -1", "1 if element_index == min(supported_neighbors) else 1", 0, ["C03", "C09"]),
+    ("dispatch_wrong_constructor", "bempp_cl/api/space/space.py", "            space_f = scalar_dual_spaces.dual1_function_space", "            space_f = scalar_dual_spaces.dual0_function_space", 0, ["C09"]),
+    ("dispatch_unknown_not_rejected", "bempp_cl/api/space/space.py", "    if space_f is None:\n        raise ValueError(\"Requested space not implemented.\")", "    if space_f is None:\n        space_f = scalar_spaces.p0_discontinuous_function_space", 0, ["C09"]),
     ("normal_mult_both_plus", "bempp_cl/api/space/space.py", "            normal_multipliers[element_index] = -1\n", "            normal_multipliers[element_index] = 1\n", 0, ["C03", "C09"]),
     ("normal_mult_wrong_set", "bempp_cl/api/space/space.py", "        if grid.domain_indices[element_index] in swapped_normals:\n            normal_multipliers", "        if element_index in swapped_normals:\n            normal_multipliers", 0, ["C03", "C09"]),
     ("snc_evaluate_cross_order", "bempp_cl/api/space/maxwell_spaces.py", "result[0, :, :] = normal[1] * tmp[2, :, :] - normal[2] * tmp[1, :, :]", "result[0, :, :] = normal[2] * tmp[1, :, :] - normal[1] * tmp[2, :, :]", 0, ["C09"]),
@@ -163,6 +167,10 @@ EQUIVALENTS = [
     ("eq_p1_place_arithmetic", "bempp_cl/api/space/scalar_spaces.py", "bary_dofs[count : count + 18] = _np.arange(3 * bary_elements[0], 3 * bary_elements[0] + 18)", "bary_dofs[count : count + 18] = _np.arange(18 * index, 18 * (index + 1))", 0, ["C10"]),
     ("eq_compat_spelling", "bempp_cl/api/space/space.py", "    is_barycentric = any([space.is_barycentric for space in args])\n\n    if not is_barycentric:\n        return args\n    else:\n        # Convert spaces\n        converted = [space.barycentric_representation() for space in args]\n",
      "    if not any(sp.is_barycentric for sp in args):\n        return args\n    else:\n        converted = [sp.barycentric_representation() for sp in args]\n", 0, ["C10"]),
+    ("eq_dispatch_restructured", "bempp_cl/api/space/space.py", "    if kind == \"DP\":\n        if degree == 0:\n            space_f = scalar_spaces.p0_discontinuous_function_space\n        if degree == 1:\n            space_f = scalar_spaces.p1_discontinuous_function_space\n\n    if kind == \"P\":\n        if degree == 1:\n            space_f = scalar_spaces.p1_continuous_function_space\n",
+     "    if kind == \"DP\" and degree == 0:\n        space_f = scalar_spaces.p0_discontinuous_function_space\n    elif kind in (\"DP\",) and degree == 1:\n        space_f = scalar_spaces.p1_discontinuous_function_space\n    elif kind == \"P\" and not degree != 1:\n        space_f = scalar_spaces.p1_continuous_function_space\n", 0, ["C09"]),
+    ("eq_sparse_transform_rename", "bempp_cl/core/sparse_assembler.py", "        if domain.requires_dof_transformation:\n            mat = mat @ domain.dof_transformation\n\n        if dual_to_range.requires_dof_transformation:\n            mat = dual_to_range.dof_transformation.T @ mat\n",
+     "        if dual_to_range.requires_dof_transformation:\n            tt = dual_to_range.dof_transformation.T\n            mat = tt @ mat\n\n        if domain.requires_dof_transformation:\n            mat = mat @ domain.dof_transformation\n", 0, ["C13"]),
     ("eq_refine_rename", "bempp_cl/api/grid/grid.py", "            vertex01 = self.element_edges[0, index] + self.number_of_vertices\n            vertex20 = self.element_edges[1, index] + self.number_of_vertices\n            vertex12 = self.element_edges[2, index] + self.number_of_vertices\n\n            new_elements[:, 4 * index] = [vertex0, vertex01, vertex20]\n\n            new_elements[:, 4 * index + 1] = [vertex01, vertex1, vertex12]\n\n            new_elements[:, 4 * index + 2] = [vertex12, vertex2, vertex20]\n\n            new_elements[:, 4 * index + 3] = [vertex01, vertex12, vertex20]\n",
      "            nv = self.number_of_vertices\n            m_a = nv + self.element_edges[0, index]\n            m_b = nv + self.element_edges[1, index]\n            m_c = nv + self.element_edges[2, index]\n            new_elements[:, 3 + 4 * index] = [m_a, m_c, m_b]\n            new_elements[:, 4 * index + 2] = [m_c, vertex2, m_b]\n            new_elements[:, 1 + index * 4] = [m_a, vertex1, m_c]\n            new_elements[:, index * 4] = [vertex0, m_a, m_b]\n", 0, ["C11", "C04"]),
     ("eq_union_rename", "bempp_cl/api/grid/grid.py", "        vertices[:, vertex_offset : vertex_offset + nvertices] = grid.vertices\n        if swapped_normals[index]:\n            current_elements = grid.elements[[0, 2, 1], :]\n        else:\n            current_elements = grid.elements\n        elements[:, element_offset : element_offset + nelements] = current_elements + vertex_offset\n        all_domain_indices[element_offset : element_offset + nelements] = domain_indices[index]\n        vertex_offset += nvertices\n        element_offset += nelements\n",
